@@ -62,7 +62,7 @@ def build_inventory(forest):
 
 # ---- helpers ---------------------------------------------------------------------------------------
 
-_IMMUTABLE = (int, float, str, bytes, bool, type(None), range, frozenset)
+_IMMUTABLE = (int, float, str, bytes, bool, type(None), range, frozenset, __import__('decimal').Decimal)
 
 
 def _immutable(v, depth=0):
